@@ -2878,17 +2878,20 @@ where
                 if let PeerScoreState::Active(peer_score) = &mut self.peer_score {
                     peer_score.graft(&peer_id, topic.clone());
                 }
-
-                // inform the handler of the peer being added to the mesh
-                // If the peer did not previously exist in any mesh, inform the handler
-                peer_added_to_mesh(
-                    peer_id,
-                    vec![topic],
-                    &self.mesh,
-                    &mut self.events,
-                    &self.connected_peers,
-                );
             }
+
+            // inform the handler of the peer being added to the mesh
+            // If the peer did not previously exist in any mesh, inform the handler.
+            // The meshes of all topics are already updated at this point, so all topics grafted
+            // in this heartbeat are passed at once: a call per topic would find the peer in the
+            // meshes of the other newly grafted topics and never notify the handler.
+            peer_added_to_mesh(
+                peer_id,
+                topics.iter().collect(),
+                &self.mesh,
+                &mut self.events,
+                &self.connected_peers,
+            );
             let rpc_msgs = topics.iter().map(|topic_hash| {
                 RpcOut::Graft(Graft {
                     topic_hash: topic_hash.clone(),
